@@ -82,6 +82,14 @@ PLANS = {
                 "events again after every queue was drained; every anomaly carries the causal flag 'the affected send overlapped a create/drop-listener operation' (only those match the known finding); "
                 "distinct = (schedule, config); the evidence counts the sends that really overlapped a churn operation",
                 [ser(15), free(8), ser(6, flavor="checked", shards=8)], [ser(200), free(120), ser(80, flavor="checked"), dict(flavor="asan", lane="free", secs=60, crash_is_violation=True)], 2000, 20000),
+    "C05": plan("one evaluation = one execution + teardown on a random kind (Uni movable x3, zero-copy x2, Multi arc x3, ogre_arc x2), payload with destructor (4/5) or without: 1-3 producers, 1-3 consumers that "
+                "keep up to 4 handles across later sends, clone them, convert unique->shared, hand clones to another thread that drops them, some consumers stop early so that 0..N events are still "
+                "buffered when the channel is torn down (after every handle was released); oracles: drop tracker (double drop, drop while a handle is held, destructor on garbage), payload re-read "
+                "through every handle at release, instances alive = created - destroyed per event at the quiescent end (0 if delivered and released, 1 if still buffered), capacity probe; the same "
+                "workloads in the AddressSanitizer build (a sanitizer report or crash is a violation); distinct = (schedule, config)",
+                [ser(12), free(8), dict(flavor="asan", lane="ser", secs=8, shards=8, crash_is_violation=True), dict(flavor="asan", lane="free", secs=6, shards=4, crash_is_violation=True), ser(5, flavor="checked", shards=8)],
+                [ser(150), free(100), dict(flavor="asan", lane="ser", secs=100, crash_is_violation=True), dict(flavor="asan", lane="free", secs=80, crash_is_violation=True), ser(60, flavor="checked")], 2000, 20000,
+                ["assumes (as the property does) that setters initialise the slot with ptr::write and that handles do not outlive their channel", "a leak (payload never destroyed at teardown) is not reported: the property demands 'at most once' there"]),
 }
 
 LEVEL_NOTE = ("trusted base: the harness (conductor/chaos scheduler, recorder, checkers), the placement of the hook sites, x86-64/TSO for the free-running lane, "
@@ -127,4 +135,7 @@ META = {
     "C17": meta("conductor+chaos+asan", "runtime monitoring: controlled scheduling of the live-listener list rewrite against the sender's fan-out loop; per-listener exactly-once/order oracle, capacity probe, causal attribution of each anomaly to an overlapping churn operation",
                 "Randomised exploration of listener creation/removal racing the fan-out loop, with every anomaly attributed (or not) to an overlapping churn operation.",
                 "DESIGN.md section 2, C17"),
+    "C05": meta("conductor+chaos+asan", "runtime monitoring: instrumented payload type (per-event drop counter, canary, live-handle table updated before the real release) + AddressSanitizer on the same histories, teardown with buffered events included",
+                "Randomised exploration of send/receive/clone/drop/teardown histories with an instrumented payload, run both natively and under AddressSanitizer.",
+                "DESIGN.md section 2, C05"),
 }
